@@ -65,7 +65,7 @@ def project(g):
             "terms": sorted(tt(t) for t in g.terminals), "allv": sorted(allv), "prods": sorted(prods)}
 
 
-def make(prods, vpool="upper", tpool="ab", order=None, declare=False, nostart=False):
+def make(prods, vpool="upper", tpool="ab", order=None, declare=False, nostart=False, container=None):
     """prods: list of [head, [body]] over abstract names S,A,B / a,b.  Returns (cfg, tagged start, tagged prods).
     declare=True passes the whole variable and terminal pools to the constructor (declared but possibly unused symbols)."""
     vm, tm = VAR_POOLS[vpool], TERM_POOLS[tpool]
@@ -77,6 +77,10 @@ def make(prods, vpool="upper", tpool="ab", order=None, declare=False, nostart=Fa
         tagged.append([vt(vm[h]), [vt(vm[x]) if x in vm else tt(tm[x]) for x in b]])
     if order:
         plist = [plist[i] for i in order]
+    if container == "dup":        # a list in which every production occurs twice
+        return CFG(start_symbol=Variable(vm["S"]), productions=plist + list(reversed(plist))), vt(vm["S"]), tagged
+    if container == "gen":        # a one-shot iterable (the parameter is declared Iterable[Production])
+        return CFG(start_symbol=Variable(vm["S"]), productions=(p for p in plist)), vt(vm["S"]), tagged
     if nostart:     # a grammar object without start symbol (the constructor's default): it generates nothing
         g = CFG(productions=set(plist))
         return g, "none", tagged
